@@ -103,6 +103,19 @@ CLAIMED = {
         note=TRUST + "Assumes SHA-256 collision resistance for 'different structures get different roots'; the hash "
              "recipe inside Cmr::v is checked under C03.",
         design="3/C09"),
+    "C10": dict(
+        technique="provenance rule over work-stack continuations (which summand's type each carries), exhaustive abstract evaluation of the has_padding expressions over {child flags} x {width orderings}, guard-polarity/dominance rule for the padded fast path",
+        text="The property is arithmetic over every type shape and bit offset and is not decided. Three of its necessary conditions "
+             "are visible in the code's shape and are decided: (sumtype) in the iterative compact decoder and in Value::prune the "
+             "continuation of a left injection carries the right summand's type and vice versa, the sub-task pushed with it processes "
+             "the summand on the value's own side, product components are paired index by index, and the decoder reads a 0 bit as "
+             "left as CompactBitsIter writes it; (padflag) Final::has_padding, the flag that lets from_compact_bits read a padded "
+             "encoding from a compact stream, is implied by the presence of padding in all 12 combinations of child flags and width "
+             "orderings for sum and product (evaluated on the constructors' MIR; a flag that is true more often is sound and only "
+             "noted); (fastpath) the padded decoder is reached only under a false has_padding() of the same type and no other "
+             "function builds a Final. Shifts, masks, offsets, pruning's results and accessor inverses are not decided.",
+        note=TRUST + "Assumes Value::left/right build the sum their arguments name (bit-level correctness undecided).",
+        design="3/C10"),
     "C11": dict(
         technique="call-graph + provenance analysis of the comparison trait impls (which view of the data they consume)",
         text="Decides that Value's ==, Ord and Hash (and Word's derived ones, and Final's) consume only the canonical "
@@ -176,7 +189,6 @@ CLAIMED = {
 
 NOT_APPLICABLE = {
     "C06": "agreement of two interpreters' runtime verdicts over all programs/witnesses/environments: no structural clause beyond those decided under C05/C14",
-    "C10": "bit-layout correctness of Value is shift/mask/offset arithmetic over every type shape and offset mod 8; not decidable from code shape",
     "C13": "exact coding of naturals/bit streams is numeric round-trip equality; only its guard clauses are structural and those are decided under C02",
     "C15": "'each jet returns the supplied field' is data marshalling through C whose truth is in values; extern signatures are covered by C14",
     "C18": "index bookkeeping of PostOrderIter over all DAG shapes is an algorithmic invariant of a stateful loop; a static proxy would be a frozen fragment",
